@@ -22,7 +22,7 @@ EXPLANATION = ("frame (assigns) obligations of every function of the decode path
                "global/nonlocal, no mutable default arguments, no module-level mutable state in the code modules, no store or mutating call "
                "whose root is not a local, self or an own container, table modules are literal dict/tuple/str data.")
 
-CODE_MODULES = ["pyrtcm.rtcmmessage", "pyrtcm.rtcmreader", "pyrtcm.rtcmhelpers"]
+CODE_MODULES = ["pyrtcm.rtcmmessage", "pyrtcm.rtcmreader", "pyrtcm.rtcmhelpers", "pyrtcm.socketwrapper"]
 TABLE_MODULES = ["pyrtcm.rtcmtypes_core", "pyrtcm.rtcmtypes_get", "pyrtcm.rtcmtypes_get_msm", "pyrtcm.rtcmtypes_get_igs", "pyrtcm.rtcmtables"]
 MUTATORS = {"append", "pop", "update", "clear", "extend", "insert", "remove", "setdefault", "popitem", "add", "discard", "sort", "reverse", "__setitem__", "__delitem__"}
 
@@ -31,6 +31,22 @@ def root_name(n):
     while isinstance(n, (ast.Attribute, ast.Subscript, ast.Call)):
         n = n.value if not isinstance(n, ast.Call) else n.func
     return n.id if isinstance(n, ast.Name) else None
+
+
+def immutable_literal(v):
+    if isinstance(v, ast.Constant):
+        return True
+    if isinstance(v, ast.UnaryOp) and isinstance(v.operand, ast.Constant):
+        return True
+    return isinstance(v, ast.Tuple) and all(immutable_literal(e) for e in v.elts)
+
+
+def immutable_binding(x):
+    if isinstance(x, ast.Assign):
+        return immutable_literal(x.value)
+    if isinstance(x, ast.AnnAssign):
+        return x.value is None or immutable_literal(x.value)
+    return False
 
 
 def scan():
@@ -55,7 +71,10 @@ def scan():
             if isinstance(n, ast.FunctionDef):
                 funcs.append((None, n))
             elif isinstance(n, ast.ClassDef):
-                cls_bad = [f"line {x.lineno}" for x in n.body if not isinstance(x, (ast.FunctionDef, ast.Expr, ast.Pass))]
+                # class-level names bound to immutable literals are constants, not state; anything else (a list, dict, set, bytearray,
+                # a call) is shared by every instance, and an in-place update through self.<name> would leak from one object into the next
+                cls_bad = [f"line {x.lineno}: {ast.unparse(x)[:60]}" for x in n.body
+                           if not isinstance(x, (ast.FunctionDef, ast.Expr, ast.Pass)) and not immutable_binding(x)]
                 out.append((f"frame.class_has_no_class_level_state[{mod}.{n.name}]", not cls_bad, {"statements": cls_bad}))
                 funcs += [(n.name, x) for x in n.body if isinstance(x, ast.FunctionDef)]
         for cls, fn in funcs:
@@ -161,6 +180,13 @@ def replay(o, seed):
     r = try_candidates("history_independence", history_candidates(seed, 80), key=lambda i, r: "history")
     if r.get("reproduced"):
         return r
+    if "socketwrapper" in o["name"]:
+        from props.C11 import sock_candidates
+        cands = ({"streams": [[d.hex(), [x for x in sc if isinstance(x, int)], bs] for d, sc, bs in list(sock_candidates(seed + j))[:3]]}
+                 for j in range(40))
+        r = try_candidates("socket_history", cands, key=lambda i, r: "socket-history")
+        if r.get("reproduced"):
+            return r
     if o["name"].startswith("frame."):
         return {"reproduced": True, "spec": "frame_scan", "input": {"obligation": o["name"]}, "expected": "no write outside the frame",
                 "observed": o.get("model"), "key": o["name"]}
